@@ -4,12 +4,12 @@
 cd "$(dirname "$0")/.."
 ./check --setup >/dev/null 2>&1 || echo "SETUP FAILED"
 for p in $(python3 -c "import json;print(' '.join(c['property_id'] for c in json.load(open('MANIFEST.json'))['checks']))"); do
-  for s in 2 3 4 5; do
+  for s in ${SWEEP_SEEDS:-2 3 4 5}; do
     VERIF_SEED=$s ./check $p --tier quick > .work/sweep.out 2> .work/sweep.err; rc=$?
     echo "$p quick seed=$s exit=$rc $(grep -c '^VIOLATION' .work/sweep.out) violations; $(tail -1 .work/sweep.err | cut -c1-160)"
     grep '^VIOLATION' .work/sweep.out
   done
-  VERIF_SEED=7 ./check $p --tier thorough > .work/sweep.out 2> .work/sweep.err; rc=$?
-  echo "$p thorough seed=7 exit=$rc $(grep -c '^VIOLATION' .work/sweep.out) violations; $(tail -1 .work/sweep.err | cut -c1-160)"
+  VERIF_SEED=${SWEEP_TSEED:-7} ./check $p --tier thorough > .work/sweep.out 2> .work/sweep.err; rc=$?
+  echo "$p thorough seed=${SWEEP_TSEED:-7} exit=$rc $(grep -c '^VIOLATION' .work/sweep.out) violations; $(tail -1 .work/sweep.err | cut -c1-160)"
   grep '^VIOLATION' .work/sweep.out
 done
